@@ -6,7 +6,7 @@ from uplc_checks import cj, write_cfg
 
 ITEMS = [{"kind": "fn", "name": "item1"}, {"kind": "fn", "name": "item2"}, {"kind": "fn", "name": "item3"}, {"kind": "fn", "name": "item4"},
          {"kind": "validator", "name": "item5"}, {"kind": "fn", "name": "item6"}, {"kind": "fn", "name": "item7"}, {"kind": "fn", "name": "item8"},
-         {"kind": "fn", "name": "item9"}, {"kind": "fn", "name": "item10"}, {"kind": "fn", "name": "item11"}, {"kind": "fn", "name": "item12"}]
+         {"kind": "fn", "name": "item9"}, {"kind": "fn", "name": "item10"}, {"kind": "fn", "name": "item11"}, {"kind": "fn", "name": "item12"}, {"kind": "fn", "name": "item13"}]
 
 
 def c09(tier):
@@ -14,7 +14,7 @@ def c09(tier):
     rep = vlib.Reporter("C09")
     src = open(os.path.join(vlib.ROOT, "corpus", "c09_module.ak")).read()
     h = 3
-    cfg = write_cfg("CodeGenReuse", {"NItems": 12, "H": h}, ["HistoryIndependent", "CountersReset", "Emit"])
+    cfg = write_cfg("CodeGenReuse", {"NItems": 13, "H": h}, ["HistoryIndependent", "CountersReset", "Emit"])
     r = vlib.tlc("CodeGenReuse", cfg=cfg, workers=6, timeout=2400, xmx="8g", metaname="CodeGenReuse")
     if not r.ok:
         raise vlib.ToolError("CodeGenReuse failed (a violated invariant is a flaw of the reuse DESIGN): %s\n%s" % (r.error, r.out[-1200:]))
@@ -54,7 +54,13 @@ def c09(tier):
     # several validator modules defining validators of the same name, and messages that differ by white space only
     extra = {}
     for mod, msg in (("alpha", "ab"), ("beta", "a b"), ("gamma", "a  b"), ("delta", "ab")):
-        extra["validators/%s.ak" % mod] = ("validator main(p: ByteArray) {\n  mint(_r: Data, _p: ByteArray, _tx: Data) {\n    expect p == \"%s\"\n    True\n  }\n\n  else(_) {\n    fail\n  }\n}\n" % msg)
+        # the same constant name in every module, with another value; the modules also share two library functions through a cycle
+        extra["validators/%s.ak" % mod] = ("use shared/lib.{ping, pong}\n\nconst limit: Int = %d\n\nconst names: List<ByteArray> = [\"%s\", \"x\"]\n\n"
+                                           "validator main(p: ByteArray) {\n  mint(_r: Data, _p: ByteArray, _tx: Data) {\n    expect p == \"%s\"\n    ping(limit, names) > pong(limit, [p])\n  }\n\n  else(_) {\n    fail\n  }\n}\n"
+                                           % (len(mod) * 7 + len(msg), msg, msg))
+    extra["lib/shared/lib.ak"] = ("use aiken/builtin\n\nfn weigh(bs: ByteArray) -> Int {\n  builtin.length_of_bytearray(bs)\n}\n\nfn total(xs: List<ByteArray>) -> Int {\n  when xs is {\n    [] -> 0\n    [x, ..rest] -> weigh(x) + total(rest)\n  }\n}\n\n"
+                                  "pub fn ping(n: Int, xs: List<ByteArray>) -> Int {\n  if n <= 0 {\n    total(xs) + weigh(#\"00\")\n  } else {\n    pong(n - 1, xs) + weigh(#\"0102\")\n  }\n}\n\n"
+                                  "pub fn pong(n: Int, xs: List<ByteArray>) -> Int {\n  if n <= 0 {\n    weigh(#\"03\") - total(xs)\n  } else {\n    ping(n - 1, xs) + total([#\"04\"])\n  }\n}\n")
     blueprints = []
     for run, env in enumerate([{}, {}, {"RAYON_NUM_THREADS": "1"}, {"RAYON_NUM_THREADS": "4"}, {"RAYON_NUM_THREADS": "16"}]):
         cases = [{"id": i, "dir": os.path.join(vlib.WORK, "bp", "c09_%d_%d_%d" % (os.getpid(), run, i)), "src": vsrc, "ops": [], "extra_files": extra, "verbose": True}
@@ -66,9 +72,11 @@ def c09(tier):
             blueprints.append(json.dumps(o["blueprint"], sort_keys=False))
     # each validator built with the others must be the validator built alone (a generator shared across a build keeps nothing)
     together = {v["title"]: v for v in json.loads(blueprints[0])["validators"]} if blueprints else {}
-    alone_cases = [{"id": i, "dir": os.path.join(vlib.WORK, "bp", "c09_%d_alone_%d" % (os.getpid(), i)), "src": "", "ops": [], "extra_files": {k: v}, "verbose": True}
-                   for i, (k, v) in enumerate(sorted(extra.items()))]
-    for (k, v), o in zip(sorted(extra.items()), vlib.run_harness("blueprint_ops", stdin_lines=alone_cases)):
+    vals = sorted((k, v) for k, v in extra.items() if k.startswith("validators/"))
+    libs = {k: v for k, v in extra.items() if not k.startswith("validators/")}
+    alone_cases = [{"id": i, "dir": os.path.join(vlib.WORK, "bp", "c09_%d_alone_%d" % (os.getpid(), i)), "src": "", "ops": [], "extra_files": dict(libs, **{k: v}), "verbose": True}
+                   for i, (k, v) in enumerate(vals)]
+    for (k, v), o in zip(vals, vlib.run_harness("blueprint_ops", stdin_lines=alone_cases)):
         if o.get("build") != "ok":
             raise vlib.ToolError("C09: module %s does not build alone: %s" % (k, json.dumps(o.get("build"))[:500]))
         for val in o["blueprint"]["validators"]:
